@@ -200,11 +200,24 @@ def subsets_nested_text_to_flat_json(lines, idxline):
     Convert all subsets data from nested text format to flat JSON format.
     """
     data_all_subsets = []
+    # Indentation of the attribute that repeats a value listed elsewhere (e.g. quality
+    # information shown under the element it qualifies), None when not inside one
+    indent_repeated_attribute = None
     while True:
         # The dots mark a delayed replication factor (and the attributes attached to it)
         line = lines[idxline].strip().lstrip('.').lstrip()
         if line.startswith(TEXT_SECTION_HEADER):
             break
+        indent = len(lines[idxline]) - len(lines[idxline].lstrip(' .'))
+        if indent_repeated_attribute is not None:
+            if indent > indent_repeated_attribute:
+                # Everything below a repeated attribute, including its own
+                # associated field, is listed with the value itself
+                idxline += 1
+                continue
+            indent_repeated_attribute = None
+        if line.startswith('->') and not line.startswith('-> A'):
+            indent_repeated_attribute = indent
         if line.startswith(TEXT_SUBSET_HEADER):
             data_all_subsets.append([])
             idxline += 1
